@@ -115,11 +115,20 @@ PROPS_PART = {
         level_note=_SERVER_TRUSTED + ' DOCUMENTED CALLER CONTRACT kept as `requires`: handle_message panics by design when response_buf is smaller than '
                    '65,535 (TCP) / the configured EDNS size (UDP). SystemTime -> TimeSigned `.expect()` is discharged from the ASSUMPTION that the '
                    'system clock is within 1970..year 8.9M (48-bit seconds). RwLock poisoning is ignored.',
-        verus=[dict(unit=u, which='safety') for u in SERVER_UNITS]
+        verus=[dict(unit=u, which='safety') for u in SERVER_UNITS] + [
+               # contracts that callers use to discharge panic sites (unreachable!/unwrap/expect): a violation of
+               # one of them re-opens the panic, so ALL their obligations count for C01, not only the safety ones
+               dict(unit='tsig', which='all', fns=['try_from_read_rr', 'try_from']),
+               dict(unit='dns_types', which='all', fns=['try_from']),
+               dict(unit='writer_core', which='all', fns=['new', 'set_edns', 'set_extended_rcode']),
+               dict(unit='writer_finish', which='all', fns=['set_tsig']),
+               dict(unit='reader', which='all', fns=['try_from', 'peek_rr', 'mark', 'rewind'])]
               + [dict(unit='reader', which='safety'), dict(unit='name_wire', which='safety'), dict(unit='writer_core', which='safety'),
                  dict(unit='writer_names', which='safety'), dict(unit='writer_rr', which='safety'), dict(unit='writer_ops', which='safety'),
                  dict(unit='writer_finish', which='safety'), dict(unit='tsig', which='safety'), dict(unit='tsig_rdata', which='safety'),
-                 dict(unit='rrl', which='safety'), dict(unit='catalog', which='safety')],
+                 dict(unit='rrl', which='safety'), dict(unit='catalog', which='safety'),
+                 dict(unit='rdata', which='safety'), dict(unit='zone', which='safety'), dict(unit='query_helpers', which='safety'),
+                 dict(unit='query_addl', which='safety'), dict(unit='query_cname', which='safety'), dict(unit='query_answer', which='safety')],
         kani=[],
         cex={},
         unverified=['answer / answer_any and below (query units, C05), zone lookups (zone units, C06), Rrl::process_response body (unit rrl): '
